@@ -12,7 +12,9 @@
 (* non-empty text at i (unlexable character, unterminated string or        *)
 (* comment, lone '+' or '@' ...).                                          *)
 (***************************************************************************)
-EXTENDS AidlLayout
+EXTENDS AidlLayout, Json
+
+ASSUME TLCSet(43, JsonDeserialize("atoms.json"))
 
 Letters == {"a","b","c","d","e","f","g","h","i","j","k","l","m","n","o","p","q","r","s","t","u","v","w","x","y","z",
             "A","B","C","D","E","F","G","H","I","J","K","L","M","N","O","P","Q","R","S","T","U","V","W","X","Y","Z","_"}
@@ -43,8 +45,12 @@ FindQuote(at, i) == IF i > Len(at) \/ at[i] \in EolAtoms THEN 0
                     ELSE IF at[i] = "\"" THEN i
                     ELSE FindQuote(at, i + 1)
 
+\* the text of an atom: itself for printable ASCII, the character it names otherwise (table read once from
+\* atoms.json into a TLC register, so that the specification needs no non-ASCII literal)
+AtomStr(a) == IF Len(a) = 1 THEN a ELSE TLCGet(43)[a]
+
 RECURSIVE Concat(_, _, _)
-Concat(at, a, b) == IF a > b THEN "" ELSE at[a] \o Concat(at, a + 1, b)
+Concat(at, a, b) == IF a > b THEN "" ELSE AtomStr(at[a]) \o Concat(at, a + 1, b)
 
 Literals == [package |-> "PACKAGE", import |-> "IMPORT", interface |-> "INTERFACE", parcelable |-> "PARCELABLE",
              enum |-> "ENUM", oneway |-> "ONEWAY", const |-> "CONST", void |-> "VOID", String |-> "STRING",
